@@ -216,18 +216,26 @@ class HTMLConverter(HTMLScraper, BaseDocumentConverter):
 
         if link_info.base_link:
             if self._base_url:
-                base_url = wpull.url.urljoin(
-                    self._base_url, link_info.base_link
-                )
+                try:
+                    base_url = wpull.url.urljoin(
+                        self._base_url, link_info.base_link
+                    )
+                except ValueError:
+                    return None
             else:
                 base_url = link_info.base_link
 
-        if base_url:
-            url = wpull.url.urljoin(base_url, link_info.link)
-        else:
-            url = link_info.link
+        try:
+            if base_url:
+                url = wpull.url.urljoin(base_url, link_info.link)
+            else:
+                url = link_info.link
 
-        url_info = URLInfo.parse(url, encoding=self._encoding)
+            url_info = URLInfo.parse(url, encoding=self._encoding)
+        except ValueError:
+            # Leave a link that is not a valid URL as it is
+            return None
+
         new_url = self._get_new_url(url_info)
 
         return new_url
@@ -309,7 +317,10 @@ class CSSConverter(CSSScraper, BaseDocumentConverter):
 
     def get_new_url(self, url, base_url=None):
         if base_url:
-            url = wpull.url.urljoin(base_url, url)
+            try:
+                url = wpull.url.urljoin(base_url, url)
+            except ValueError:
+                return url
 
         try:
             url_record = self._url_table.get_one(url)
